@@ -51,7 +51,11 @@ type LoadOpts struct {
 	Overlay  map[string][]byte
 }
 
-func Load(o LoadOpts) (*Prog, error) {
+// loadViaExportData is the plain go/packages loader (module packages type-checked by
+// go/packages, every import from export data).  It is kept for cross-checking the in-process
+// loader (PROMVERIF_LOADER=packages): after an edit of /repo it makes the go command recompile
+// the edited package and all its dependants (about a minute), which Load avoids.
+func loadViaExportData(o LoadOpts) (*Prog, error) {
 	if o.RepoDir == "" {
 		o.RepoDir = "/repo"
 	}
